@@ -85,3 +85,31 @@ def elementwise(fn, expr):
             outcomes.append((tuple(cs.conds), apps))
         return Elementwise(lp.iter, lp.target.id, outcomes, 'loop')
     return None
+
+
+def node_dispatch(fn, pred='isNodeType'):
+    """{class name: method name} of a type dispatcher: on every returning path, the class named by
+    the last isNodeType() test decided true on that path -> the self.<method> call whose result is
+    returned (directly, or through a local that holds the call's result).  Form independent:
+    `if ..: return self.m(node)` chains, if/elif chains assigning a local, conditional expressions."""
+    from . import symex
+    out = {}
+    try:
+        cases = symex.Walker(want_returns=True).run(fn)
+    except symex.TooManyPaths:
+        return out
+    for cs in cases:
+        if cs.kind != 'return':
+            continue
+        cls = None
+        for t, pol in cs.conds:
+            if pol and isinstance(t, ast.Call) and isinstance(t.func, ast.Attribute) and \
+                    t.func.attr == pred and t.args:
+                cls = unparse(t.args[0]).rsplit('.', 1)[-1]
+        if cls is None:
+            continue
+        v = symex.resolve(cs.sub, cs.env)
+        if isinstance(v, ast.Call) and isinstance(v.func, ast.Attribute) and \
+                isinstance(v.func.value, ast.Name) and v.func.value.id == 'self':
+            out.setdefault(cls, v.func.attr)
+    return out
